@@ -86,9 +86,7 @@ func opCborEncRT(p []string) string {
 	if err != nil {
 		return "bad-op"
 	}
-	w := &recordingWriter{}
-	s := cbor.NewEncoder(w)
-	fl := runSteps(s, ts)
+	fl, w := encodeBoth(func(w io.Writer) stepper { return cbor.NewEncoder(w) }, ts)
 	rt := "-"
 	if strings.HasSuffix(fl, "D") {
 		var all []byte
